@@ -53,11 +53,11 @@ class Result:
 
 def _smt2(pc, goal):
     s = z3.Solver()
-    for b in EN.BACKGROUND:
+    exprs = [p for p in pc if p is not True] + [goal]
+    for b in EN.background_for(exprs):
         s.add(b)
-    for p in pc:
-        if p is not True:
-            s.add(p)
+    for p in exprs[:-1]:
+        s.add(p)
     s.add(z3.Not(goal))
     return s
 
@@ -110,7 +110,7 @@ def discharge(pc, goal, timeout_s=10.0, len_consts=()):
         # refuted iff the path is feasible
         s = z3.Solver()
         s.set("timeout", int(timeout_s * 1000))
-        for b in EN.BACKGROUND:
+        for b in EN.background_for(pc):
             s.add(b)
         for p in pc:
             if p is not True:
@@ -214,16 +214,16 @@ def verify(ctx, contract: Contract, timeout_s=None):
                 extra = {"result": out.val}
                 for name, role, text in contract.ensures:
                     goal = text(E, s, out) if callable(text) else E.eval_spec(text, s, extra)
-                    E.obligations.append(EN.Obligation(f"ensures.{name}", role, list(s.pc), goal, "/".join(s.decisions[-14:]), "return"))
+                    E.obligations.append(EN.Obligation(f"ensures.{name}", role, list(s.pc), goal, "/".join(s.decisions), "return"))
             elif out.kind == "raise":
                 for name, role, fn_ in contract.raises:
-                    E.obligations.append(EN.Obligation(f"raises.{name}", role, list(s.pc), fn_(E, s, out.val), "/".join(s.decisions[-14:]), "raise"))
+                    E.obligations.append(EN.Obligation(f"raises.{name}", role, list(s.pc), fn_(E, s, out.val), "/".join(s.decisions), "raise"))
                 if not contract.allow_raise and not contract.raises:
-                    E.obligations.append(EN.Obligation("no-raise", "safety", list(s.pc), False, "/".join(s.decisions[-14:]), "raise"))
+                    E.obligations.append(EN.Obligation("no-raise", "safety", list(s.pc), False, "/".join(s.decisions), "raise"))
             else:
                 raise Unsupported(f"path ends with {out.kind}")
             for name, role, fn_ in contract.exits:
-                E.obligations.append(EN.Obligation(f"exit.{name}", role, list(s.pc), fn_(E, s, out), "/".join(s.decisions[-14:]), out.kind))
+                E.obligations.append(EN.Obligation(f"exit.{name}", role, list(s.pc), fn_(E, s, out), "/".join(s.decisions), out.kind))
         if len(paths) < contract.min_paths:
             raise Unsupported(f"only {len(paths)} paths explored, contract expects >= {contract.min_paths}")
         _record(ctx, res, fn, "vacuity.paths-explored", "auxiliary", "discharged", "path-enumeration", 0.0, f"{len(paths)} feasible paths, {n_ret} normal exits")
